@@ -92,9 +92,12 @@ class AndersonAcceleration:
             self._Gk[:, col] = gk - self._gkm1
 
             # Solve least squares problem. Changes in increments at round-off level
-            # (stagnating or converged iteration) carry no information, but would be
-            # amplified by the least squares solve and spoil the iterate; discard them.
-            round_off = np.finfo(float).eps * max(
+            # (stagnating or converged iteration, or increments repeating themselves)
+            # carry no information, but would be amplified by the least squares solve
+            # and spoil the iterate; discard them. As the increments stem from linear
+            # solves, their round-off level is well above machine precision; use the
+            # square root of the machine precision as safeguard (as for secant methods).
+            round_off = np.sqrt(np.finfo(float).eps) * max(
                 np.linalg.norm(gk), np.linalg.norm(fk)
             )
             active = np.linalg.norm(self._Fk[:, 0:mk], axis=0) > round_off
